@@ -202,9 +202,17 @@ def run(ctx):
         raise vf.Inconclusive("free-running driver: %d summaries for %d executions\n%s" % (len(fsums), nfree, out2[-3000:]))
     traces = _split_traces(rp)
     traces.update(_split_traces(fp))
+    skipped = [s for s in sums + fsums if s.get("skipped")]
+    sums = [s for s in sums if not s.get("skipped")]
+    fsums = [s for s in fsums if not s.get("skipped")]
     sumby = {s["id"]: s for s in sums + fsums}
     if set(traces.keys()) != set(sumby.keys()):
         raise vf.Inconclusive("trace files and summaries disagree")
+    if skipped:
+        # the drivers stop executing cases once several executions hung (each hang costs a watchdog period)
+        if not any(s["hang"] for s in sumby.values()):
+            raise vf.Inconclusive("cases were skipped without a recorded hang")
+        ctx.log("%d cases skipped after %d executions hung" % (len(skipped), sum(1 for s in sumby.values() if s["hang"])))
     ctx.log("real executions recorded: %d replayed (%d exactly as the model behaviour), %d free running" % (
         len(sums), sum(1 for s in sums if s["exact"]), len(fsums)))
 
